@@ -21,6 +21,8 @@ CHECKS = {
          TECH + "; adversarial peers (grammar-aware mutation) with a canary oracle"),
  "C13": ("exploration", "Seeded exploration of write/read-back programs (SET incl. options, SETNX, GETSET, SETEX, PSETEX, MSET, HSET/HMSET with several pairs, HSETNX; GET, MGET, HGET, HMGET, HGETALL, HVALS) with values of every length around the threshold and six entropy classes, thresholds 1-4096, 1-4 connections sharing the pooled buffers and compressors, enable/disable toggles through OnSvcConfigUpdate at random steps, and re-sharding/migration so that writes are redirected and resent; oracle: every reply equals the reply of a per-connection reference Redis, every value stored on a node is the original or the documented header plus a snappy stream that expands to the original and is shorter, sub-threshold values are verbatim, disabled commands get an error and never reach a node.", "4.C13",
          TECH + "; differential testing against a reference model plus storage-form oracle (reference snappy decoder)"),
+ "C14": ("exploration", "The Redis 5 command table (about 230 names, embedded with Redis's own write flags) is enumerated block-wise by run index in lower, upper and mixed case with 0-4 arguments under each of the three read strategies, together with random non-commands, on random layouts of 1-4 masters x 0-2 replicas, one sequential client with nanosecond-varied pacing (the replica choice depends on the clock). Each request carries a unique key so node log entries are attributable; oracle: documented-unsupported names and non-commands get an error and reach no node, locally answered commands are answered and reach no node, a forwarded write is only ever received by the master owning the key's slot, a forwarded read only by that master or one of its replicas, a replica only when the strategy permits and only on a connection that issued READONLY.", "4.C14",
+         TECH + "; exhaustive enumeration of the command table inside seeded layouts"),
 }
 NA = {
 }
